@@ -418,7 +418,7 @@ def make_inputs(chk, tier):
     rng = chk.rng
     inputs = [{"src": s, "origin": "corpus"} for s in CORPUS]
     ut = unit_test_strings()
-    n_perm = 350 if tier == "quick" else 4000
+    n_perm = 250 if tier == "quick" else 4000
     for rel, cases in sorted(ut.items()):
         chk.bump("unit_test_strings:" + rel, len(cases))
         for c in cases:
@@ -432,7 +432,7 @@ def make_inputs(chk, tier):
     for src in angle_state_inputs(rng, 12 if tier == "quick" else 120):
         inputs.append({"src": src, "origin": "angle-state"})
     g = G.Gen(rng, 4)
-    n_gen = 2600 if tier == "quick" else 30000
+    n_gen = 2300 if tier == "quick" else 30000
     gen = []
     for _ in range(n_gen):
         spec = g.arg_list()
@@ -489,7 +489,7 @@ class Runner:
         exprs = []
         for c in cases:
             l = coq_list(c["split"]["tokens"])
-            exprs.append("(view_split %s, view_attr (TLit [34; 34] :: TPunct 44 false :: %s))" % (l, l))
+            exprs.append("(view_split %s, view_attr (TLit [34; 34] :: TPunct 44 false :: %s), view_spec %s)" % (l, l, l))
         return common.coq_eval(["Verif.C16.Model"], exprs, batch=120, tag="c16")
 
 
@@ -566,10 +566,33 @@ def check_case(c, m, report):
         if ra[0] != "Panic" and ma != ra:
             report("tie-attr", "Coq model of FmtAttribute/FmtArgument disagrees with the code on `%s`" % c["src"],
                    {"model": ma, "code": ra})
+    # ---- the grammar-level splitter of the model (Model.v Part 3) and the characterisation theorem
+    spec = None
+    if m is not None and len(m) > 2:
+        t = m[2]
+        if t == "SFuel":
+            report("model-out-of-fuel", "the grammar-level splitter ran out of fuel on `%s` (contradicts C16_spec_total)" % c["src"], {})
+        elif t[0] == "SOk":
+            spec = ("Ok", list(t[1][0]), t[1][1] == "true", t[2] == "true")
+        else:
+            spec = ("Fail", None, None, t[1] == "true")
+        facts["limit_free"] = spec[3]
+        if spec[3] and rs[0] != "Panic":
+            same = (spec[0] == "Fail" and rs[0] == "Fail") or \
+                   (spec[0] == "Ok" and rs[0] == "Ok" and [n for (n, _) in rs[1]] == spec[1] and rs[2] == spec[2])
+            if not same:
+                report("characterisation-contradicted", "`%s` has no limit-class step, yet the real split differs from the "
+                       "grammar-level one (contradicts theorem C16_characterisation for the code)" % c["src"],
+                       {"spec": spec, "code": rs})
     # ---- oracle: syn's full expression parser
     sy = sp["syn"]
     if "ok" not in sy:
         return facts
+    if spec is not None:
+        want = [e["end"] - e["start"] for e in sy["ok"]]
+        if spec[0] != "Ok" or spec[1] != want or spec[2] != sy["trailing"]:
+            report("grammar-spec-differs-from-syn", "the grammar-level splitter of Model.v reads `%s` as %s, syn's expression "
+                   "parser as %s" % (c["src"], spec[1], want), {"spec": spec, "syn": want})
     facts["syn_ok"] = True
     exprs = sy["ok"]
     facts["n"] = len(exprs)
@@ -590,6 +613,8 @@ def check_case(c, m, report):
                (c["src"], len(exp), " | ".join(show(x) for x in exp), len(got), " | ".join(show(x) for x in got)),
                {"expected": [show(x) for x in exp], "observed": [show(x) for x in got]})
         facts["missplit"] = key
+        if facts.get("limit_free"):
+            report("characterisation-contradicted", "`%s` is mis-split (%s) although it has no limit-class step" % (c["src"], key), {})
         return facts
     if sp["dm"]["trailing"] != sy["trailing"]:
         report("trailing-comma", "trailing comma flag differs on `%s`" % c["src"], {})
@@ -894,8 +919,29 @@ def check_resolution(binary, chk, rng, n_bound, n_pass, report):
         pend.append((c, want, tr))
         if tr is not None:
             relex_reqs.append({"cmd": "tokens", "tokens": tr["expr"]})
+    # tie: the model's transparent_expr (fmt/mod.rs transparent_call, argument selection) on the same tokens
+    tie_idx = []
+    tie_exprs = []
+    for idx, (c, want, tr) in enumerate(pend):
+        mm = _PH.match(c["lit"])
+        if not mm:
+            continue
+        ref = mm.group(1)
+        php = "PhNone" if ref is None else ("PhIndex %d" % int(ref)) if ref.isdigit() else ("PhName " + common.coq_str(ref))
+        sp = res[base + 2 * pass_cases.index(c)]
+        toks = [{"l": '"%s"' % c["lit"]}] + ([{"p": ",", "j": False}] + sp["tokens"] if sp["tokens"] else [])
+        tie_idx.append(idx)
+        tie_exprs.append("view_transparent (%s) %s" % (php, coq_list(toks)))
+    tie_res = dict(zip(tie_idx, common.coq_eval(["Verif.C16.Model"], tie_exprs, batch=150, tag="c16t")))
+    stats["pass_model_ties"] = len(tie_idx)
     rl = iter(common.run_jsonl(binary, relex_reqs, timeout=300))
-    for (c, want, tr) in pend:
+    for idx, (c, want, tr) in enumerate(pend):
+        if idx in tie_res:
+            t = tie_res[idx]
+            mt = None
+            if t != "Fail" and t != "Fuel" and t[1] != "None":
+                mt = drop_last_joint([from_coq(x) for x in t[1][1]])
+            c["_model_transparent"] = (t if t in ("Fail", "Fuel") else "Ok", mt)
         stats["pass_cases"] += 1
         chk.count(("pass", c["body"]), True)
         got = None
@@ -904,6 +950,12 @@ def check_resolution(binary, chk, rng, n_bound, n_pass, report):
             got = (drop_last_joint(r.get("ok") or []), tr["trait"])
             stats["pass_delegated"] += 1
         w = None if want is None else (drop_last_joint(want[0]), want[1])
+        if "_model_transparent" in c:
+            st_, mt = c["_model_transparent"]
+            if st_ != "Ok" or mt != (None if got is None else got[0]):
+                report("tie-transparent", "Coq model of transparent_call's argument selection disagrees with the code on "
+                       "`#[display(%s)]`" % c["body"], {"model": [st_, None if mt is None else show(mt)],
+                                                        "code": None if got is None else show(got[0])})
         if got != w:
             def sh(x):
                 return None if x is None else "%s::fmt(%s)" % (x[1], show(x[0]))
@@ -981,14 +1033,14 @@ def run(tier, seed, replay):
                                   lambda k, t, d: res_hits.append((k, t, d)))
         chk.cov["argument_resolution"] = rstats
         for (k, t, d) in res_hits:
-            found.setdefault(k, []).append(({"src": d.get("item") or d.get("attr")}, t, d))
+            found.setdefault(k, []).append(({"src": d.get("item") or d.get("attr") or d.get("src") or str(d)[:300]}, t, d))
 
     # report, smallest example of every class first; grammar cases are shrunk
     for key in sorted(found):
-        lst = sorted(found[key], key=lambda x: len(x[0]["src"]))
+        lst = sorted(found[key], key=lambda x: len(x[0].get("src") or ""))
         chk.bump("class:" + key, len(lst))
         for idx, (c, text, detail) in enumerate(lst[:3]):
-            src = c["src"]
+            src = c.get("src") or ""
             if idx == 0 and len(src) > 60 and c.get("spec") is not None and not replay and not key.startswith("tie-"):
                 small = shrink(runner, c["spec"], key)
                 s2 = G.render_list(small)
